@@ -4,6 +4,7 @@ Pure algebraic invariants on what the real likelihood function / model reports (
 agreement of every exponentiation back-end with scipy.  No model of cogent3 is needed: the oracle is linear algebra.
 """
 
+import itertools
 import math
 import random
 
@@ -45,6 +46,9 @@ def gen_cases(rng, tier):
     for model in ALL_MODELS:
         for _ in range(draws):
             cases.append({"kind": "lf", "model": model, "seed": rng.randrange(2**32), "n": 2 if M.kind_of(model) != "nuc" else 5})
+    nup = 12 if tier == "quick" else 300
+    for _ in range(nup):
+        cases.append({"kind": "userpred", "seed": rng.randrange(2**32), "n": 10})
     nadv = 16 if tier == "quick" else 800
     for _ in range(nadv):
         cases.append({"kind": "adversarial", "seed": rng.randrange(2**32), "n": 12})
@@ -383,7 +387,17 @@ def run_case(case):
         Q = np.array(case["Q"])
         check_backends(res, Q, None, case["label"], {"kind": "one-adv", "Q": case["Q"], "label": case["label"]}, random.Random(0), adversarial=True)
         return res
+    if kind == "one-userpred":
+        decide_userpred(res, case["spec"])
+        return res
     rng = random.Random(case["seed"])
+    if kind == "userpred":
+        for i in range(case["n"]):
+            spec = gen_userpred(rng)
+            decide_userpred(res, spec)
+            if i == 0:
+                res.sample({"user-predicates": spec})
+        return res
     if kind == "lf":
         model = case["model"]
         for i in range(case["n"]):
@@ -407,6 +421,141 @@ def run_case(case):
     return res
 
 
+# ---------------------------------------------------------------------------
+# user-built nucleotide predicate models: any list of MotifChange predicates (undirected, directed, named), in any order
+
+
+def decide_userpred(res, spec):
+    """spec = {cls, preds: [[kind, x, y]], values: [...], mprobs: {...}, length}"""
+    from cogent3 import make_tree
+    from cogent3.evolve.ns_substitution_model import NonReversibleNucleotide
+    from cogent3.evolve.predicate import MotifChange
+    from cogent3.evolve.substitution_model import TimeReversible, TimeReversibleNucleotide
+
+    rc = {"kind": "one-userpred", "spec": spec}
+
+    def mkpreds(order):
+        out = []
+        for i in order:
+            k, x, y = spec["preds"][i]
+            if k == "named":
+                out.append(x)
+            else:
+                out.append(MotifChange(x, y, forward_only=(k == "dir")).aliased(f"p{i}"))
+        return out
+
+    def names(order):
+        return [spec["preds"][i][1] if spec["preds"][i][0] == "named" else f"p{i}" for i in order]
+
+    cls = TimeReversibleNucleotide if spec["cls"] == "rev" else NonReversibleNucleotide
+    n = len(spec["preds"])
+    orders = [list(range(n)), list(range(n))[::-1]] + ([spec["perm"]] if spec.get("perm") else [])
+    directed = any(k == "dir" for k, _, _ in spec["preds"])
+    verdicts = []
+    Qs = []
+    for order in orders:
+        try:
+            sm = cls(predicates=mkpreds(order), name="userpred")
+        except ValueError:
+            verdicts.append("refused")
+            res.refused += 1
+            continue
+        except Exception as e:  # noqa: BLE001
+            res.evals += 1
+            res.witness(exc_mechanism("C05/user-predicates/build", e), replay_case=rc)
+            return
+        verdicts.append("accepted")
+        try:
+            lf = sm.make_likelihood_function(make_tree("(a:0.1,b:0.1,c:0.1)"))
+            lf.set_motif_probs(spec["mprobs"])
+            for i, nm in zip(order, names(order)):
+                lf.set_param_rule(nm, init=spec["values"][i])
+            lf.set_param_rule("length", edge="a", init=spec["length"])
+            states = [str(x) for x in sm.get_alphabet()]
+            Q = lf.get_rate_matrix_for_edge("a", calibrated=True).to_array()
+            P = lf.get_psub_for_edge("a").to_array()
+        except Exception as e:  # noqa: BLE001
+            res.evals += 1
+            res.witness(exc_mechanism("C05/user-predicates/evaluate", e), replay_case=rc)
+            return
+        pi = np.array([spec["mprobs"][x] for x in states])
+        detail = {"order": order, "replay_case": rc}
+        check_Q(res, "user-predicates", Q, pi, "userpred", detail)
+        check_P(res, "user-predicates", P, "userpred", detail)
+        # the generator from the definition: r_ij = product of the parameters whose predicate covers i->j, times pi_j
+        R = np.ones((4, 4))
+        for i, (k, x, y) in enumerate(spec["preds"]):
+            v = spec["values"][i]
+            for a_, sa in enumerate(states):
+                for b_, sb in enumerate(states):
+                    if a_ == b_:
+                        continue
+                    if k == "named":
+                        hit = M.is_transition(sa, sb) if x == "kappa" else not M.is_transition(sa, sb)
+                    else:
+                        hit = (sa == x and sb == y) or (k == "sym" and sa == y and sb == x)
+                    if hit:
+                        R[a_, b_] *= v
+        # (time-reversible family: exchangeability times target frequency; non-stationary family: the rate itself)
+        own = R * pi[None, :] if spec["cls"] == "rev" else R.copy()
+        np.fill_diagonal(own, 0)
+        np.fill_diagonal(own, -own.sum(axis=1))
+        own /= -(pi * np.diag(own)).sum()
+        res.evals += 1
+        res.count("user-predicate-models-checked")
+        if np.abs(Q - own).max() > 1e-9:
+            res.witness("C05/user-predicates/Q-differs-from-definition", got=Q, exp=own, **detail)
+        ref = M.expm(Q, spec["length"])
+        res.evals += 1
+        if np.abs(P - ref).max() > 1e-8:
+            res.witness("C05/P-differs-from-expm/user-predicates", maxdiff=float(np.abs(P - ref).max()), **detail)
+        if isinstance(sm, TimeReversible):
+            # whatever was accepted as time-reversible must be: stationary motif probs and detailed balance
+            res.evals += 1
+            res.count("user-predicate-reversible-accepted")
+            F = pi[:, None] * Q
+            if np.abs(pi @ Q).max() > 1e-9:
+                res.witness("C05/motif-probs-not-stationary/user-predicates", maxdev=float(np.abs(pi @ Q).max()), directed=directed, **detail)
+            if np.abs(F - F.T).max() > 1e-9:
+                res.witness("C05/detailed-balance-broken/user-predicates", maxdev=float(np.abs(F - F.T).max()), directed=directed, **detail)
+            if np.abs(pi @ P - pi).max() > 1e-9:
+                res.witness("C05/motif-probs-not-stationary-under-P/user-predicates", directed=directed, **detail)
+        Qs.append(Q)
+    res.evals += 1
+    res.count("user-predicate-orderings-compared")
+    if len(set(verdicts)) > 1:
+        res.witness("C05/user-predicates/accepted-or-refused-depending-on-predicate-order", verdicts=verdicts, replay_case=rc)
+    elif len(Qs) > 1 and max(np.abs(q - Qs[0]).max() for q in Qs[1:]) > 1e-9:
+        res.witness("C05/user-predicates/Q-depends-on-predicate-order", replay_case=rc)
+    res.sig("userpred", spec["cls"], n, directed, verdicts[0], any(k == "named" for k, _, _ in spec["preds"]))
+    if spec["cls"] == "rev" and directed:
+        res.count("user-predicate-reversible-with-directed-term:" + verdicts[0])
+
+
+def gen_userpred(rng):
+    n = rng.randint(1, 4)
+    pairs = [a + b for a, b in itertools.permutations("ACGT", 2)]
+    rng.shuffle(pairs)
+    cls = rng.choice(["rev", "rev", "nonrev"])
+    preds = []
+    used = set()
+    for x, y in pairs:
+        if len(preds) >= n:
+            break
+        if frozenset((x, y)) in used:
+            continue
+        used.add(frozenset((x, y)))
+        k = "dir" if rng.random() < (0.35 if cls == "rev" else 0.7) else "sym"
+        preds.append([k, x, y])
+    if cls == "rev" and rng.random() < 0.25:  # named predicates exist for the time-reversible family only
+        preds[rng.randrange(len(preds))] = ["named", "kappa", None]
+    perm = list(range(len(preds)))
+    rng.shuffle(perm)
+    mp = M.dirichlet(rng, 4)
+    return {"cls": cls, "preds": preds, "perm": perm, "values": [round(math.exp(rng.uniform(-2.5, 2.5)), 6) for _ in preds],
+            "mprobs": dict(zip("ACGT", [float(x) for x in mp])), "length": rng.choice([0.0, 0.01, 0.3, 2.0])}
+
+
 def required(counters, tier):
-    need = ["solved-model-edges", "other-edges-unchanged-checked", "checked-exponentiator-raised", "Q-checked", "P-checked", "P(0)=I-checked", "semigroup-checked", "stationarity-checked", "bin-rates-checked", "adversarial-Q", "backend:Fast", "backend:Checked", "backend:Pade", "backend:Taylor", "backend:SemiSymmetric", "setting:either", "setting:pade"]
+    need = ["user-predicate-models-checked", "user-predicate-orderings-compared", "user-predicate-reversible-accepted", "user-predicate-reversible-with-directed-term:refused", "solved-model-edges", "other-edges-unchanged-checked", "checked-exponentiator-raised", "Q-checked", "P-checked", "P(0)=I-checked", "semigroup-checked", "stationarity-checked", "bin-rates-checked", "adversarial-Q", "backend:Fast", "backend:Checked", "backend:Pade", "backend:Taylor", "backend:SemiSymmetric", "setting:either", "setting:pade"]
     return [n for n in need if not counters.get(n)]
